@@ -420,6 +420,17 @@ def check(prog, rep):
             # mutation of the published object after publication (other than single-key inserts)
             later_fill = []
             names = {val.id} if isinstance(val, ast.Name) else set()
+            # containers the published object holds by reference (a local list placed in the dict display) are part of it
+            asg_ = local_assignments(fi.node)
+            displays = [val] + ([v for v in asg_.get(val.id, []) if isinstance(v, ast.AST)] if isinstance(val, ast.Name) else [])
+            for d_ in displays:
+                parts = list(d_.values) if isinstance(d_, ast.Dict) else list(d_.elts) if isinstance(d_, (ast.List, ast.Tuple)) else [kw.value for kw in d_.keywords] if isinstance(d_, ast.Call) and dotted(d_.func) == "dict" else []
+                names |= {p_.id for p_ in parts if isinstance(p_, ast.Name)}
+            for s in walk_local(fi.node, include_self=False):
+                if isinstance(s, ast.Assign) and getattr(s, "lineno", 0) < n.lineno and isinstance(s.value, ast.Name):
+                    for t in s.targets:
+                        if isinstance(t, ast.Subscript) and isinstance(t.value, ast.Name) and t.value.id in names:
+                            names.add(s.value.id)
             for s in walk_local(fi.node, include_self=False):
                 if getattr(s, "lineno", 0) <= n.lineno:
                     continue
